@@ -8,14 +8,19 @@
 (*    size  class  the 32-bit value the prefix declares                    *)
 (*    have  class  how many payload bytes follow: "none", "short" (one     *)
 (*                 fewer than declared), "full"                            *)
-(*    valid        a full trailer payload decodes as HttpTrailer           *)
+(*    valid        a full payload decodes (trailer: as HttpTrailer; message:   *)
+(*                 as the message type -- always, for the enumerated tapes) *)
 (* Only the last segment of a tape may be incomplete; the body then ends   *)
 (* cleanly (io.EOF) or abruptly (a read error).  Size classes: "z" zero,   *)
 (* "s" a small message, "lim" exactly the 100 MiB limit, "over" 16 MiB more,  *)
 (* "max" 2^31-1, "tr" a trailer (negative, small), "trover" a trailer      *)
 (* declaring more than the limit, "min" -2^31.                             *)
 (* Dec computes what the decoder must do; Chk compares with what the real  *)
-(* code did with the materialised bytes.                                   *)
+(* code did with the materialised bytes.  A third source of cases are      *)
+(* random byte strings (the harness's generator: frames, random payloads,  *)
+(* random prefixes, garbage, cut anywhere): they are mapped to a tape by   *)
+(* reading size prefixes only (the abstraction function, no decoding logic *)
+(* of its own) and judged by the same Dec.                                 *)
 (***************************************************************************)
 EXTENDS Integers, Sequences, FiniteSets
 
@@ -63,6 +68,7 @@ Dec(segs, n, ending, side) ==
          ELSE IF s.have # "full" \/ ~s.valid THEN [n |-> n, result |-> "error"]
          ELSE [n |-> n, result |-> "done"]
     ELSE IF s.have # "full" THEN [n |-> n, result |-> "error"]          \* "lim" is never full here
+    ELSE IF ~s.valid THEN [n |-> n, result |-> "error"]                 \* the payload does not decode as a message
     ELSE IF side = "server-ss" /\ n = 1 THEN [n |-> n, result |-> "error"]   \* second request on a single-request method
     ELSE Dec(Tail(segs), n + 1, ending, side)
 
